@@ -58,6 +58,39 @@ class Event:
         return '<%s L%s>' % (self.text(), self.lineno)
 
 
+class LazyLines:
+    """A list of text lines computed on first use (path descriptions are only needed when an
+    obligation fails)."""
+    __slots__ = ('_f', '_v')
+
+    def __init__(self, f):
+        self._f = f
+        self._v = None
+
+    def _get(self):
+        if self._v is None:
+            self._v = list(self._f())
+        return self._v
+
+    def __iter__(self):
+        return iter(self._get())
+
+    def __len__(self):
+        return len(self._get())
+
+    def __getitem__(self, i):
+        return self._get()[i]
+
+    def __bool__(self):
+        return True
+
+    def __add__(self, other):
+        return LazyLines(lambda: list(self) + list(other))
+
+    def __radd__(self, other):
+        return LazyLines(lambda: list(other) + list(self))
+
+
 class Path:
     __slots__ = ('events', 'outcome', 'value', 'cls', 'cut', 'lists')
 
@@ -83,6 +116,9 @@ class Path:
         return [e for e in self.events if e.kind == 'write']
 
     def describe(self, limit=40):
+        return LazyLines(lambda: self._describe(limit))
+
+    def _describe(self, limit=40):
         out = [e.text() + ('  @L%s' % e.lineno if e.lineno else '') for e in self.events[:limit]]
         out.append('=> %s %s' % (self.outcome, txt(self.value) if self.value is not None
                                  else (self.cls or self.cut or '')))
